@@ -13,6 +13,12 @@ def tasks(run):
 
 
 def run(run):
+    from pyvc import components, runner
+    runner.load_contracts()
+    components.ast_functions(run, ['PEPit/block_partition.py::BlockPartition.get_block', 'PEPit/block_partition.py::BlockPartition.add_constraint'],
+                             run.tier, rt_quick=15, rt_thorough=80)
+    run.trust('pyvc AST engine + z3 5.1 / cvc5 1.0.3')
+    run.assume('the module-level object null_point is the empty combination and is written by no statement (C12 inventory)')
     res_tasks = tasks(run)
     hc.solve_scenarios(run, 'C15', res_tasks, 'partition-scenarios',
                        'seeded partitions with 1-4 blocks, 1-3 decomposed points (leaves and combinations, any order): blocks sum back to the point, repeated '
